@@ -32,13 +32,13 @@ PROPS = {
             "oracle_filter": "C13", "level": "exploration"},
     "C14": {"engines": ["T"], "quick_s": 70, "thorough_s": 1200,
             "oracle_filter": "C14", "level": "exploration"},
-    "C15": {"engines": ["P"], "quick_s": 60, "thorough_s": 900,
+    "C15": {"engines": ["P", "G"], "quick_s": 80, "thorough_s": 1100, "weights": {"P": 0.62, "G": 0.38},
             "oracle_filter": "C15", "level": "exploration"},
 }
 # Deterministic floor per engine and second of budget: run indexes below floor*budget are explored
 # whatever the machine load (up to HARD_FACTOR x budget of wall time); the wall budget only decides
 # how much further a batch goes.  About half of what an idle 16-core sandbox does.
-FLOOR_PER_S = {"K": 70, "S": 90, "T": 6, "P": 0.9}
+FLOOR_PER_S = {"K": 70, "S": 90, "T": 6, "P": 0.9, "G": 20}
 HARD_FACTOR = 2.5
 CRASH_PROPS = {  # property a confirmed crash/hang is attributed to, by engine and phase prefix
     # only a crash/hang while machine code of a kernel runs is a violation; a slow or crashing
@@ -48,6 +48,7 @@ CRASH_PROPS = {  # property a confirmed crash/hang is attributed to, by engine a
     "S": lambda ph: ["C13", "C02"],
     "T": lambda ph: [] if ph == "warmup" else ["C14"],
     "P": lambda ph: ["C15"],
+    "G": lambda ph: [],  # a crash while *generating* is C08's business
 }
 
 
